@@ -136,7 +136,13 @@ fn c_tev(e: &TerminalEvent) -> String {
         TerminalEvent::Mouse(m) => format!("(EMouse {} {} {} {})", c_mname(&m.name), mod_bits(m.mode), m.pos.row, m.pos.col),
         TerminalEvent::CursorPosition(p) => format!("(ECursor {} {})", p.row, p.col),
         TerminalEvent::Size(s) => format!("(ESize {} {} {} {})", s.cells.height, s.cells.width, s.pixels.height, s.pixels.width),
-        TerminalEvent::DecMode { mode, status } => format!("(EDecMode {} {})", *mode as usize, *status as usize),
+        // the mode is identified by its NAME and printed with the number the xterm documents give
+        // to that name (a variant with a wrong discriminant then shows as a failing input)
+        TerminalEvent::DecMode { mode, status } => {
+            let name = format!("{:?}", mode);
+            let num = DOC_DECMODES.iter().find(|(n, _)| *n == name).map(|(_, v)| *v).unwrap_or(*mode as u64);
+            format!("(EDecMode {} {})", num, *status as usize)
+        }
         TerminalEvent::DeviceAttrs(set) => format!("(EDevAttrs {})", cnums(&set.iter().collect::<Vec<_>>())),
         TerminalEvent::KittyImage { id, placement, error } => format!(
             "(EKittyImage {} {} {})",
@@ -236,21 +242,18 @@ fn u(v: &Value) -> u64 {
 fn ulist(v: &Value) -> Vec<u64> {
     v.as_array().map(|a| a.iter().map(u).collect()).unwrap_or_default()
 }
-fn chan(form: u64, upper: bool, v: u64) -> Vec<u8> {
+fn chan_digits(form: u64) -> u32 {
     match form {
-        0 => vec![hex_digit(upper, v / 17)],
-        1 | 4 => hex2(upper, v),
-        2 => {
-            let mut x = hex2(upper, v);
-            x.push(hex_digit(upper, v / 16));
-            x
-        }
-        _ => {
-            let mut x = hex2(upper, v);
-            x.extend(hex2(upper, v));
-            x
-        }
+        0 => 1,
+        1 | 4 => 2,
+        2 => 3,
+        _ => 4,
     }
+}
+/// the channel value as transmitted: `chan_digits(form)` hex digits, most significant first
+fn chan(form: u64, upper: bool, v: u64) -> Vec<u8> {
+    let n = chan_digits(form);
+    (0..n).rev().map(|i| hex_digit(upper, (v >> (4 * i)) & 15)).collect()
 }
 fn utf8(c: u64) -> Vec<u8> {
     let mut buf = [0u8; 4];
@@ -296,6 +299,12 @@ fn print(r: &Value) -> Vec<u8> {
             if let Some(code) = kitty_code(&r["k"]) {
                 o.extend(b"\x1b[");
                 o.extend(digits(code));
+                for a in r["alts"].as_array().map(|a| a.as_slice()).unwrap_or(&[]) {
+                    o.push(b':');
+                    if !a.is_null() {
+                        o.extend(digits(u(a)));
+                    }
+                }
                 if u(&r["mods"]) != 0 {
                     o.push(b';');
                     o.extend(digits(u(&r["mods"]) + 1));
@@ -309,9 +318,8 @@ fn print(r: &Value) -> Vec<u8> {
             o.push(b'u');
         }
         "mouse" => {
-            let code = [0u64, 1, 2, 3, 64, 65][(u(&r["m"]) as usize).min(5)];
             o.extend(b"\x1b[<");
-            o.extend(digits(code + 4 * u(&r["mods"]) + if r["motion"].as_bool().unwrap_or(false) { 32 } else { 0 }));
+            o.extend(digits(u(&r["code"])));
             o.push(b';');
             o.extend(digits(u(&r["col"]) + 1));
             o.push(b';');
@@ -462,7 +470,7 @@ fn c_key(k: &Value) -> String {
 
 /// mirror of Printer.xterm_seq (xterm PC-style / VT220-style key encodings)
 fn xterm_seq(k: &Value, mods: u64, alt: bool) -> Option<Vec<u8>> {
-    if mods >= 8 {
+    if mods >= 256 {
         return None;
     }
     let (kind, arg) = (u(&k[0]), u(&k[1]));
@@ -471,11 +479,17 @@ fn xterm_seq(k: &Value, mods: u64, alt: bool) -> Option<Vec<u8>> {
     }
     if kind == 5 {
         let c = arg;
-        if mods == 2 && ((97..=122).contains(&c) || (48..=57).contains(&c)) {
+        if mods == 2 && (33..=126).contains(&c) && !(65..=90).contains(&c) && ![91, 93, 95].contains(&c) {
             return Some(vec![27, c as u8]);
+        }
+        if mods == 3 && (97..=122).contains(&c) && c != 111 && c != 112 {
+            return Some(vec![27, (c - 32) as u8]);
         }
         if mods == 4 && (97..=122).contains(&c) {
             return Some(vec![(c - 96) as u8]);
+        }
+        if mods == 4 && c == 32 {
+            return Some(vec![0]);
         }
         return None;
     }
@@ -540,17 +554,14 @@ fn c_report(r: &Value) -> String {
         "lit" => format!("(RLit {})", cbytes(&vbytes(&r["w"]))),
         "xterm" => format!("(RXterm {} {} {})", c_key(&r["k"]), u(&r["mods"]), b(&r["alt"])),
         "char" => format!("(RChar {})", u(&r["c"])),
-        "kitty" => format!("(RKittyKey {} {})", c_key(&r["k"]), u(&r["mods"])),
-        "level" => format!("(RKeyLevel {})", u(&r["n"])),
-        "mouse" => format!(
-            "(RMouse {} {} {} {} {} {})",
-            ["MLeft", "MMiddle", "MRight", "MMove", "MWheelDown", "MWheelUp"][(u(&r["m"]) as usize).min(5)],
+        "kitty" => format!(
+            "(RKittyKey {} {} {})",
+            c_key(&r["k"]),
             u(&r["mods"]),
-            b(&r["press"]),
-            b(&r["motion"]),
-            u(&r["row"]),
-            u(&r["col"])
+            clist(r["alts"].as_array().map(|a| a.as_slice()).unwrap_or(&[]).iter().map(|a| if a.is_null() { "None".to_string() } else { format!("(Some {})", u(a)) }))
         ),
+        "level" => format!("(RKeyLevel {})", u(&r["n"])),
+        "mouse" => format!("(RMouse {} {} {} {})", u(&r["code"]), b(&r["press"]), u(&r["row"]), u(&r["col"])),
         "cursor" => format!("(RCursor {} {})", u(&r["row"]), u(&r["col"])),
         "size" => {
             let v = ulist(&r["v"]);
@@ -567,7 +578,7 @@ fn c_report(r: &Value) -> String {
         "color" => {
             let c = ulist(&r["c"]);
             format!(
-                "(RColor {} (RGBA {} {} {} 255) {} {} {})",
+                "(RColor {} {} {} {} {} {} {})",
                 match u(&r["name"][0]) {
                     0 => "TFg".to_string(),
                     1 => "TBg".to_string(),
@@ -628,6 +639,9 @@ pub fn run(input: &Value) -> Case {
         if !cuts.is_empty() {
             tags.push("chunked".into());
         }
+        if input["known_class"].is_array() {
+            tags.push("known_class".into());
+        }
         Case {
             coq: format!("KSeq {} {} {}", clist(rs.iter().map(c_report)), cbytes(&bytes), clist(events.iter().map(c_tev))),
             json: j,
@@ -652,6 +666,18 @@ pub fn run(input: &Value) -> Case {
 
 const COORDS: [u64; 12] = [0, 1, 7, 8, 9, 10, 98, 99, 254, 255, 9999, 65534];
 const DECMODES: [u64; 9] = [25, 7, 80, 1000, 1003, 1006, 1049, 2026, 2004];
+/// xterm ctlseqs DECSET numbers by the library's variant names (mirror of Printer.xterm_decmodes)
+const DOC_DECMODES: [(&str, u64); 9] = [
+    ("AutoWrap", 7),
+    ("VisibleCursor", 25),
+    ("SixelScrolling", 80),
+    ("MouseReport", 1000),
+    ("MouseMotions", 1003),
+    ("MouseSGR", 1006),
+    ("AltScreen", 1049),
+    ("BracketedPaste", 2004),
+    ("SynchronizedOutput", 2026),
+];
 
 fn g_coord(rng: &mut Rng) -> u64 {
     if rng.chance(2, 3) {
@@ -689,7 +715,7 @@ fn g_text(rng: &mut Rng, max: u64) -> Vec<u8> {
     out
 }
 fn g_name(rng: &mut Rng) -> Vec<u64> {
-    let n = 1 + rng.below(4);
+    let n = 1 + if rng.chance(1, 6) { rng.below(24) } else { rng.below(4) };
     (0..n).map(|_| if rng.chance(1, 8) { rng.below(256) } else { 32 + rng.below(95) }).collect()
 }
 
@@ -699,7 +725,7 @@ fn g_sgr(rng: &mut Rng) -> String {
     for _ in 0..1 + rng.below(4) {
         let code = *rng.pick(&[38u64, 48, 58]);
         let c = |rng: &mut Rng| g_chan(rng);
-        parts.push(match rng.below(16) {
+        parts.push(match rng.below(17) {
             0 => "0".to_string(),
             1 => "".to_string(),
             2 => (*rng.pick(&["1", "22", "3", "23", "5", "25", "9", "29", "01"])).to_string(),
@@ -714,6 +740,7 @@ fn g_sgr(rng: &mut Rng) -> String {
             12 => format!("{}:5:{}", code, rng.below(256)),
             13 => format!("{}:2:{}:{}:{}", code, c(rng), c(rng), c(rng)),
             14 => format!("{}:2::{}:{}:{}", code, c(rng), c(rng), c(rng)),
+            15 => (*rng.pick(&["7", "27", "39", "49"])).to_string(),
             _ => (*rng.pick(&["2", "8", "53", "59"])).to_string(),
         });
     }
@@ -758,33 +785,52 @@ fn g_report(rng: &mut Rng) -> Value {
                 }]),
             };
             let mods = if rng.chance(1, 3) { 0 } else if rng.chance(1, 2) { *rng.pick(&[1u64, 2, 4, 5, 7, 8, 64, 128, 255]) } else { rng.below(256) };
-            json!({"t": "kitty", "k": k, "mods": mods})
+            // "report alternate keys": shifted key and / or base layout key
+            let alts = match rng.below(5) {
+                0 => json!([65 + rng.below(26)]),
+                1 => json!([Value::Null, 97 + rng.below(26)]),
+                2 => json!([rng.below(0x2000), g_num(rng)]),
+                _ => json!([]),
+            };
+            json!({"t": "kitty", "k": k, "mods": mods, "alts": alts})
         }
         3 => json!({"t": "level", "n": g_num(rng)}),
-        4 | 5 => json!({"t": "mouse", "m": rng.below(6), "mods": rng.below(8), "press": rng.chance(1, 2), "motion": rng.chance(1, 4),
-                        "row": g_coord(rng), "col": g_coord(rng)}),
+        4 | 5 => json!({"t": "mouse", "code": if rng.chance(3, 4) { *rng.pick(&[0u64, 1, 2, 3, 64, 65]) + 4 * rng.below(8) + 32 * rng.below(2) } else { rng.below(256) },
+                        "press": rng.chance(1, 2), "row": g_coord(rng), "col": g_coord(rng)}),
         6 => json!({"t": "cursor", "row": g_coord(rng), "col": g_coord(rng)}),
         7 => json!({"t": "size", "v": [g_num(rng), g_num(rng), g_num(rng), g_num(rng)]}),
         8 => json!({"t": "decmode", "mode": *rng.pick(&DECMODES), "status": rng.below(5)}),
         9 => {
-            let mut set = BTreeSet::new();
-            for _ in 0..1 + rng.below(6) {
-                set.insert(1 + if rng.chance(1, 2) { rng.below(70) } else { g_num(rng) % 4294967295 });
+            // as terminals send it: class first, any order, repetitions possible
+            let mut attrs: Vec<u64> = vec![*rng.pick(&[1u64, 6, 61, 62, 63, 64, 65])];
+            for _ in 0..rng.below(7) {
+                attrs.push(1 + if rng.chance(2, 3) { rng.below(30) } else { g_num(rng) % 4294967295 });
             }
-            json!({"t": "da", "attrs": set.into_iter().collect::<Vec<_>>()})
+            if rng.chance(1, 4) {
+                let d = attrs[0];
+                attrs.push(d);
+            }
+            json!({"t": "da", "attrs": attrs})
         }
         10 => {
             let err = if rng.chance(1, 2) {
                 Value::Null
             } else {
-                let t: Vec<u8> = g_text(rng, 12).into_iter().filter(|b| *b != 27).collect();
+                let max = if rng.chance(1, 6) { 80 } else { 12 };
+                let t: Vec<u8> = g_text(rng, max).into_iter().filter(|b| *b != 27).collect();
                 if t == b"OK" { json!([69]) } else { json!(t) }
             };
             json!({"t": "kimg", "id": g_num(rng), "p": if rng.chance(1, 2) { Value::Null } else { json!(g_num(rng)) }, "err": err})
         }
         11 | 12 => {
             let form = rng.below(5);
-            let c: Vec<u64> = (0..3).map(|_| if form == 0 { 17 * rng.below(16) } else { g_chan(rng) }).collect();
+            let bound = 1u64 << (4 * chan_digits(form));
+            let c: Vec<u64> = (0..3)
+                .map(|_| match rng.below(3) {
+                    0 => *rng.pick(&[0u64, 1, bound / 2 - 1, bound / 2, bound - 2, bound - 1, 0x80ff % bound, 0x7f00 % bound, 255 % bound, 256 % bound]),
+                    _ => rng.below(bound),
+                })
+                .collect();
             let name = match rng.below(3) {
                 0 => json!([0, 0]),
                 1 => json!([1, 0]),
@@ -793,7 +839,8 @@ fn g_report(rng: &mut Rng) -> Value {
             json!({"t": "color", "name": name, "c": c, "form": form, "upper": rng.chance(1, 2), "end": rng.below(2)})
         }
         13 => {
-            let mut names: Vec<Vec<u64>> = (0..rng.below(4)).map(|_| g_name(rng)).collect();
+            let count = if rng.chance(1, 6) { rng.below(12) } else { rng.below(4) };
+            let mut names: Vec<Vec<u64>> = (0..count).map(|_| g_name(rng)).collect();
             names.sort();
             names.dedup();
             if rng.chance(1, 2) {
@@ -807,7 +854,8 @@ fn g_report(rng: &mut Rng) -> Value {
             }
         }
         _ => {
-            let t: Vec<u8> = g_text(rng, 10).into_iter().filter(|b| *b != 27).collect();
+            let max = if rng.chance(1, 6) { 200 } else { 10 };
+            let t: Vec<u8> = g_text(rng, max).into_iter().filter(|b| *b != 27).collect();
             json!({"t": "paste", "text": t})
         }
     }
@@ -846,7 +894,7 @@ pub fn generate(rng: &mut Rng, n: usize, tier: &str) -> Vec<Value> {
     for n in 1..=12u64 {
         xkeys.push(json!([4, n]));
     }
-    for c in (97..=122u64).chain(48..=57u64) {
+    for c in 32..=126u64 {
         xkeys.push(json!([5, c]));
     }
     for k in &xkeys {
@@ -858,19 +906,37 @@ pub fn generate(rng: &mut Rng, n: usize, tier: &str) -> Vec<Value> {
             }
         }
     }
-    // 2. every DEC mode x every status
-    for m in DECMODES {
+    // 1c. the same encoding with modifier masks >= 8 (xterm meta, kitty super/hyper/meta/caps/num lock):
+    //     known finding C04-key-mask (the library's table stops at 7); alone, so nothing else hides behind the tag
+    for k in &xkeys {
+        if u(&k[0]) == 5 || u(&k[0]) == 3 {
+            continue;
+        }
+        for mods in [8u64, 9, 15, 16, 32, 64, 128, 129, 255] {
+            for alt in [false, true] {
+                if xterm_seq(k, mods, alt).is_some() && (mods == 8 || mods == 128 || (u(&k[1]) + mods) % 3 == 0) {
+                    v.push(json!({"reports": [{"t": "xterm", "k": k, "mods": mods, "alt": alt}], "cuts": [], "known_class": ["key-mask-ge-8"]}));
+                }
+            }
+        }
+    }
+    // 2. every DEC mode x every status: the documented ones plus whatever else from_usize accepts
+    let mut modes: Vec<u64> = DECMODES.to_vec();
+    for code in 0..10000usize {
+        if surf_n_term::terminal::DecMode::from_usize(code).is_some() && !modes.contains(&(code as u64)) {
+            modes.push(code as u64);
+        }
+    }
+    for m in modes {
         for s in 0..5u64 {
             v.push(json!({"reports": [{"t": "decmode", "mode": m, "status": s}], "cuts": []}));
         }
     }
-    // 3. mouse: every button code x modifier x press, at the origin and far away
-    for m in 0..6u64 {
-        for mods in 0..8u64 {
-            for press in [true, false] {
-                v.push(json!({"reports": [{"t": "mouse", "m": m, "mods": mods, "press": press, "motion": mods % 2 == 1, "row": 0, "col": 65534},
-                                            {"t": "mouse", "m": m, "mods": mods, "press": press, "motion": false, "row": 65534, "col": 0}], "cuts": []}));
-            }
+    // 3. mouse: every raw button code 0..255 x press / release, at the origin and far away
+    for code in 0..256u64 {
+        for press in [true, false] {
+            v.push(json!({"reports": [{"t": "mouse", "code": code, "press": press, "row": 0, "col": 65534},
+                                        {"t": "mouse", "code": code, "press": press, "row": 65534, "col": 0}], "cuts": []}));
         }
     }
     // 4. cursor reports near the ambiguity with modified F3 (CSI 1 ; n R)
@@ -881,15 +947,16 @@ pub fn generate(rng: &mut Rng, n: usize, tier: &str) -> Vec<Value> {
     // 5. kitty keys: functional codes x all 8 low modifier masks
     for k in [json!([0, 0]), json!([1, 0]), json!([2, 0]), json!([3, 0]), json!([4, 13]), json!([4, 35]), json!([5, 97]), json!([5, 0x20ac])] {
         for mods in [0u64, 1, 2, 3, 4, 5, 6, 7, 8, 16, 32, 64, 128, 255] {
-            v.push(json!({"reports": [{"t": "kitty", "k": k, "mods": mods}], "cuts": []}));
+            v.push(json!({"reports": [{"t": "kitty", "k": k, "mods": mods, "alts": []}, {"t": "kitty", "k": k, "mods": mods, "alts": [65, 97]},
+                                        {"t": "kitty", "k": k, "mods": mods, "alts": [Value::Null, 246]}], "cuts": []}));
         }
     }
     // 6. colours: every form x terminator x case, all 16 4-bit values, channel boundaries
     for form in 0..5u64 {
         for end in 0..2u64 {
             for upper in [false, true] {
-                for c in [[0u64, 255, 17], [170, 187, 204], [255, 0, 255], [1, 128, 254], [16, 15, 240]] {
-                    let c: Vec<u64> = if form == 0 { c.iter().map(|x| (x / 17) * 17).collect() } else { c.to_vec() };
+                let bound = 1u64 << (4 * chan_digits(form));
+                for c in [[0u64, bound - 1, bound / 2], [bound / 2 - 1, 1, bound - 2], [0x80ff % bound, 0x0100 % bound, 0xfeff % bound]] {
                     v.push(json!({"reports": [{"t": "color", "name": [form % 3, 7 + form * 50], "c": c, "form": form, "upper": upper, "end": end}], "cuts": []}));
                 }
             }
